@@ -443,11 +443,16 @@ func c18Expect(what string, applied []c18Applied, events []c18Ev, from int64) er
 }
 
 // c18ReadOnly replays [from, end) into a fresh engine with ReadAll on a read-and-exit binlog.
-func c18ReadOnly(opts Options, seed uint64, mode int, from int64, meta []byte) (*c18Engine, PositionInfo, error) {
+func c18ReadOnly(opts Options, seed uint64, mode int, from int64, meta []byte) (eng *c18Engine, pi PositionInfo, err error) {
 	opts.ReadAndExit = true
 	bl, _ := NewFsBinlog(nil, opts)
-	eng := c18NewEngine(seed, mode, from)
-	pi, err := bl.ReadAll(from, meta, eng)
+	eng = c18NewEngine(seed, mode, from)
+	defer func() {
+		if r := recover(); r != nil {
+			err = fmt.Errorf("PANIC in the reader: %v", r)
+		}
+	}()
+	pi, err = bl.ReadAll(from, meta, eng)
 	return eng, pi, err
 }
 
@@ -490,6 +495,9 @@ func c18NewWorld(t vpT, dir string, chunk uint32, mem, noDelay bool) *c18World {
 		}
 	} else {
 		w.fs = gofs.OsFs()
+		if err := os.MkdirAll(dir, 0o755); err != nil {
+			t.Fatalf("VP-INCONCLUSIVE mkdir: %v", err)
+		}
 	}
 	w.prefix = filepath.Join(dir, "bl")
 	w.opts = Options{PrefixPath: w.prefix, Magic: c18SchemaID, MaxChunkSize: chunk}
@@ -671,6 +679,15 @@ func c18PropHist(t vpT, c c18Case, dir string) (nontrivial bool, classes []strin
 		allCommits = append(allCommits, commits...)
 		return g
 	}
+	firstFileTailRestart := false
+	rotatedYet := func() bool {
+		for _, ev := range events {
+			if ev.Next-ev.end() >= 2*c18RotRecLen {
+				return true
+			}
+		}
+		return false
+	}
 	boundaries := func() []int64 { // event starts plus the end
 		var b []int64
 		for _, ev := range events {
@@ -722,6 +739,11 @@ func c18PropHist(t vpT, c c18Case, dir string) (nontrivial bool, classes []strin
 			waitedPos = target
 			c18CheckBad(t, sess.eng)
 		case "r":
+			if !rotatedYet() {
+				if tail := int64(c.Chunk) - 16384; c.Chunk >= 32768 && pos > tail && pos < int64(c.Chunk) {
+					firstFileTailRestart = true
+				}
+			}
 			shutdown()
 			restarts++
 			from, meta := int64(0), []byte(nil)
@@ -848,6 +870,9 @@ func c18PropHist(t vpT, c c18Case, dir string) (nontrivial bool, classes []strin
 	if slowWaits > 0 {
 		classes = append(classes, "timer-commit")
 	}
+	if firstFileTailRestart {
+		classes = append(classes, "restart-in-tail-of-first-file")
+	}
 	if c.Mem {
 		classes = append(classes, "mem-fs")
 	} else {
@@ -878,7 +903,7 @@ func c18GenSize(t *rapid.T, big bool) int {
 		return rapid.IntRange(1, 200).Draw(t, "size")
 	case k <= 15:
 		return rapid.IntRange(201, 4096).Draw(t, "size")
-	case k <= 18 || !big:
+	case k <= 17 || !big:
 		return rapid.IntRange(4097, 20000).Draw(t, "size")
 	default:
 		return rapid.IntRange(20001, 70000).Draw(t, "size")
@@ -904,6 +929,26 @@ func c18GenHist() *rapid.Generator[c18Case] {
 			Mode:    rapid.IntRange(0, 2).Draw(t, "mode"),
 			NoDelay: rapid.Bool().Draw(t, "nodelay"),
 			Seed:    rapid.Uint64().Draw(t, "seed"),
+		}
+		if rapid.IntRange(0, 6).Draw(t, "shape") == 0 {
+			// shape "restart near the end of the first file": fill the first file up to its last 16 KiB, restart,
+			// go on until it rotates (the writer keeps the head and the tail of the first file for the hash in
+			// the rotate records)
+			c.Chunk = uint32(rapid.IntRange(20000, 65536).Draw(t, "chunk"))
+			total, restarted := 44, false
+			for total < int(c.Chunk)+3000 && len(c.Ops) < 60 {
+				if !restarted && total > int(c.Chunk)-16000 && total < int(c.Chunk) {
+					c.Ops = append(c.Ops, c18Op{K: "r", From: rapid.IntRange(0, 10).Draw(t, "from")})
+					restarted = true
+					continue
+				}
+				size := rapid.IntRange(500, 6000).Draw(t, "size")
+				c.Ops = append(c.Ops, c18Op{K: "a", Size: size, Asap: rapid.IntRange(0, 2).Draw(t, "asap") == 0})
+				total += size + c18HdrLen + 3
+				if rapid.IntRange(0, 5).Draw(t, "wait?") == 0 {
+					c.Ops = append(c.Ops, c18Op{K: "w"})
+				}
+			}
 		}
 		n := rapid.IntRange(1, 40).Draw(t, "nops")
 		slowLeft := 1
